@@ -390,6 +390,46 @@ def allowed_vs_constructor(arg):
     return []
 
 
+def spelling_filter(arg):
+    """the allowed list names *species*: a reaction whose species equal allowed ones under another spelling (electron
+    'E' / 'E-' / 'e-', ice '#CO' / 'GCO' with prefix G) is allowed, through every entry path"""
+    entry, allowed, reac, kwargs = arg
+    from ..harness.render import reset_globals, quiet
+
+    reset_globals()
+    from naunet.network import Network
+    from naunet.reactions.reaction import Reaction
+    from naunet.reactiontype import ReactionType
+    from naunet.species import Species
+
+    def mkr():
+        r = [Species(x, **kwargs) for x in reac[0]]
+        p_ = [Species(x, **kwargs) for x in reac[1]]
+        return Reaction(r, p_, -1.0, -1.0, 1e-10, 0.0, 0.0, ReactionType.GAS_TWOBODY, 5)
+
+    with quiet():
+        if entry == "constructor":
+            net = Network([mkr()], allowed_species=list(allowed))
+        elif entry == "add":
+            net = Network(allowed_species=list(allowed))
+            net.add_reaction(mkr())
+        else:
+            net = Network([mkr()])
+            net.allowed_species = list(allowed)
+    if len(net.reaction_list) != 1:
+        return [(f"C14:allowed-spelling:{entry}", f"allowed {allowed}, reaction {reac[0]} -> {reac[1]} ({kwargs or 'default symbols'}) via {entry}: every species of the reaction equals an allowed one, but the reaction is filtered out", {"spelling": [entry, list(allowed), [list(reac[0]), list(reac[1])], kwargs]})]
+    return []
+
+
+SPELLING = [
+    (["e-", "H+", "H"], (["H+", "E"], ["H"]), {}),
+    (["E", "H+", "H"], (["H+", "e-"], ["H"]), {}),
+    (["e-", "H+", "H"], (["H+", "E-"], ["H"]), {}),
+    (["#CO", "CO"], (["CO"], ["GCO"]), {"surface_prefix": "G"}),
+    (["GRAIN0", "GRAIN0-", "e-"], (["GRAIN0", "E"], ["GRAIN0-"]), {}),
+]
+
+
 # ---- CLI: naunet extend ----------------------------------------------------------------
 def cli_case(arg):
     idx, lines_ids, flags, remove = arg
@@ -468,6 +508,10 @@ def run(ctx):
     for v in ctx.pmap(allowed_vs_constructor, work, chunksize=16):
         nav += 1
         ctx.absorb(v)
+    nsp = 0
+    for v in ctx.pmap(spelling_filter, [(e, a, r, k) for e in ("constructor", "add", "setter") for a, r, k in SPELLING]):
+        nsp += 1
+        ctx.absorb(v)
     # CLI
     inputs = [("r0", "r1"), ("r0", "r2", "r4", "r3"), ("r2", "r2", "r0", "r5")]
     flagsets = [fs for n in range(0, 4) for fs in itertools.combinations(["remove-duplicate", "append-depletion", "append-thermal-desorption"], n)]
@@ -491,7 +535,7 @@ def run(ctx):
         "transitions": trans,
         "traces_validated_against_impl": trans,
         "samples": [{"menu": k, "histories": r.samples} for k, r in results.items()],
-        "evaluations": trans + nav + ncli,
+        "evaluations": trans + nav + ncli + nsp,
         "distinct_nontrivial": states,
         "rule": "BFS over operation histories on real Network objects: full 25-operation menu to depth 3 (quick) / 5 (thorough), reduced 11-operation menu to depth 5 (quick) / 7 (thorough); every transition executes the real method and is compared with the reference model; plus allowed-setter vs constructor on all add sequences <=3, plus `naunet extend` on 3 inputs x 8 flag sets x 3 remove-species values",
         "levels": {k: r.per_level for k, r in results.items()},
@@ -512,6 +556,9 @@ def replay(ctx, case):
         ctx.absorb(v)
     elif "adds" in case:
         ctx.absorb(allowed_vs_constructor((tuple(case["adds"]), case["allowed"])))
+    elif "spelling" in case:
+        e, a, r, k = case["spelling"]
+        ctx.absorb(spelling_filter((e, a, (r[0], r[1]), k)))
     else:
         out = step(tuple(case["history"]))
         ctx.absorb(out["viols"])
